@@ -6,6 +6,20 @@ of basis descriptors x count pairs, every mapping of size <= 3 over a
 10-descriptor sub-basis in ALL key orders, each scaled by {-2, 0.5, 3}, each
 with one out-of-basis descriptor at every position; temperature grid; the
 three _SE getters.
+
+Third wave (domains/w3_c20.py): (a) 66 further synthetic library files - the
+3-descriptor basis in ALL 6 orders (5 of them not string-sorted) x 9 stored
+matrices (symmetric; each single entry above / below the diagonal different
+from its mirror image; asymmetric everywhere with float and with whole-number
+entries) with the uncertainty block in the library file, and the 6 orders x
+{symmetric, asymmetric} with the block in an included uq.yaml - each walked
+with the complete family above; (b) the caller's mapping edited after
+Estimate(): for every 1-3 subset of a 5-descriptor sub-basis of the 3 shipped
++ 3 original synthetic libraries, every single-step edit (clear, scale all,
+set / delete each key, add an in-basis / an out-of-basis key, re-use for the
+next mapping and estimate again) x {before, after} the first standard-error
+call; the estimate made first must keep the standard errors of the counts it
+was given.
 """
 import itertools
 import math
@@ -18,20 +32,36 @@ from ..runner import Result
 from ..models import thermoref as tr
 from ..domains import estimates as E
 from ..domains import libs
+from ..domains import w3_c20 as W
 
 LEVEL = 'exploration'
 BOUND = {t: '3 shipped + 3 synthetic libraries (one with an integer-valued matrix); all unit vectors x 3 counts; all '
             'basis pairs x 3 count pairs; all 1-3 subsets of a 10-descriptor '
             'sub-basis in every key order; scalings {-2, 0.5, 3}; one '
             'out-of-basis descriptor (with / without data) at every position; 3 '
-            'temperatures x 3 getters' for t in ('quick', 'thorough')}
+            'temperatures x 3 getters; the same family on 66 more synthetic '
+            'library files = 6 orders of a 3-descriptor basis x 9 stored '
+            'matrices (8 of them not symmetric: every single off-diagonal '
+            'position, and all positions at once with float / whole-number '
+            'entries) in the library file + 6 orders x 2 matrices in an included '
+            'uq.yaml; caller-owned mapping: all 1-3 subsets of a 5-descriptor '
+            'sub-basis (6 libraries) x every single-step edit of the mapping '
+            '(clear, scale, set/delete each key, add in-basis / out-of-basis '
+            'key, re-use for the next mapping) x {before, after} the first '
+            'standard-error call' for t in ('quick', 'thorough')}
 RULE = ('each mapping is estimated and the three standard-error getters are '
         'compared with |RMSE_X(T)| * sqrt(x\'Mx), x\'Mx summed in pure Python '
         'from the matrix rows read from the data file by the harness; '
         'non-trivial = more than one non-zero count, a non-unit count, a '
-        'permuted key order or an out-of-basis variant')
+        'permuted key order or an out-of-basis variant; every caller-mapping '
+        'case (Estimate(d), edit d, standard errors of the estimate against '
+        'the counts originally given) is non-trivial')
 ASSUMPTIONS = ['the basis order and matrix are read from uq.yaml / the library '
                'file with PyYAML by the harness itself',
+               'for the synthetic library files the harness writes the '
+               'file and judges with the basis order and matrix it wrote '
+               '(a non-symmetric stored matrix is used as stored: x\'Mx = sum '
+               'x_i M_ij x_j)',
                'relative tolerance 1e-9']
 MANIFEST = dict(
     technique='exhaustive enumeration of count vectors over the uncertainty '
@@ -42,7 +72,11 @@ MANIFEST = dict(
          'and every insertion of an out-of-basis descriptor; each _SE getter '
          'must equal |RMSE(T)| sqrt(x\'Mx), be a non-negative plain float, '
          'scale with the absolute value of a common factor, not depend on the '
-         'mapping order, and an out-of-basis descriptor must raise.',
+         'mapping order, and an out-of-basis descriptor must raise. The '
+         'library files include every order of a 3-descriptor basis and '
+         'stored matrices that are not symmetric; the caller\'s mapping is '
+         'edited in every single-step way after Estimate() and the standard '
+         'errors must stay those of the counts originally given.',
     note='Mappings with more than three non-zero counts are not enumerated.',
     ref='5/C20')
 
@@ -66,29 +100,42 @@ groups:
 _L = {}
 
 
+def _write_and_load(basis, mat, place='inline'):
+    import pgradd.ThermoChem    # noqa
+    from pgradd.GroupAdd.Library import GroupLibrary
+    d = tempfile.mkdtemp(prefix='pgv_c20_')
+    with open(os.path.join(d, 'scheme.yaml'), 'w') as f:
+        f.write(SCHEME)
+    uq = dict(UQ=dict(
+        RMSE=dict(thermochem=dict(T_ref='298.15 K', ND_H_ref=-1.5, ND_S_ref=0.75,
+                                  ND_Cp_data=[['300 K', 0.5], ['800 K', 0.25]],
+                                  range=['250 K', '1000 K'])),
+        DOF=7, InvCovMat=dict(groups=list(basis), mat=[list(r) for r in mat])))
+    with open(os.path.join(d, 'library.yaml'), 'w') as f:
+        if place == 'inline':
+            f.write(SYN_GROUPS + yaml.safe_dump(uq))
+        else:
+            # as the shipped libraries do: the block sits in an included file
+            f.write('include:\n    - uq.yaml\n' + SYN_GROUPS)
+            with open(os.path.join(d, 'uq.yaml'), 'w') as g:
+                g.write(yaml.safe_dump(uq))
+    try:
+        return GroupLibrary.Load(os.path.join(d, 'library.yaml'))
+    finally:
+        import shutil
+        shutil.rmtree(d, ignore_errors=True)
+
+
 def load(name):
     """-> (library, basis names, matrix rows) - basis/matrix read by me."""
     if name in _L:
         return _L[name]
     if name in SYN:
-        import pgradd.ThermoChem    # noqa
-        from pgradd.GroupAdd.Library import GroupLibrary
-        d = tempfile.mkdtemp(prefix='pgv_c20_')
-        with open(os.path.join(d, 'scheme.yaml'), 'w') as f:
-            f.write(SCHEME)
-        uq = dict(UQ=dict(
-            RMSE=dict(thermochem=dict(T_ref='298.15 K', ND_H_ref=-1.5, ND_S_ref=0.75,
-                                      ND_Cp_data=[['300 K', 0.5], ['800 K', 0.25]],
-                                      range=['250 K', '1000 K'])),
-            DOF=7, InvCovMat=dict(groups=SYN[name]['basis'], mat=SYN[name]['mat'])))
-        with open(os.path.join(d, 'library.yaml'), 'w') as f:
-            f.write(SYN_GROUPS + yaml.safe_dump(uq))
-        try:
-            lib = GroupLibrary.Load(os.path.join(d, 'library.yaml'))
-        finally:
-            import shutil
-            shutil.rmtree(d, ignore_errors=True)
+        lib = _write_and_load(SYN[name]['basis'], SYN[name]['mat'])
         basis, mat = SYN[name]['basis'], SYN[name]['mat']
+    elif name.startswith('synx:'):
+        basis, mat, place = W.spec(name)
+        lib = _write_and_load(basis, mat, place)
     else:
         lib = libs.load(name)
         u = yaml.safe_load(open(os.path.join(libs.data_dir(), name, 'uq.yaml')))['UQ']
@@ -124,7 +171,13 @@ def check(R, name, items, tag):
         R.violation('estimate-raises:' + r[1], '[%s] %r: Estimate raised %s' % (
             name, items, r[1]), wit)
         return None
-    e = r[1]
+    return observe(R, name, r[1], items, tag, wit)
+
+
+def observe(R, name, e, items, tag, wit, prefix='se-wrong'):
+    """The three getters x temperature grid of estimate `e` against the
+    quadratic form of `items`."""
+    lib, basis, mat = load(name)
     vals = []
     for T in (298.15, 500.0, 1000.0):
         for se, rmg in GETTERS:
@@ -141,8 +194,8 @@ def check(R, name, items, tag):
             vals.append(v)
             if type(v) is not float or not (v >= 0) or \
                     abs(v - want) > 1e-9 * max(1.0, want):
-                R.outcomes['se-wrong'] += 1
-                R.violation('se-wrong:%s:%s' % (se, tag),
+                R.outcomes[prefix] += 1
+                R.violation('%s:%s:%s' % (prefix, se, tag),
                             '[%s] %r: %s(%g) = %r (%s), |RMSE| sqrt(x\'Mx) = %r '
                             '(x\'Mx = %r)' % (name, items, se, T, v, type(v).__name__,
                                               want, q), wit)
@@ -221,17 +274,99 @@ def families(name):
         yield 'triple', [(t[0], 1), (t[1], 2), (t[2], -0.5)]
 
 
+MUT_SUB = 5      # caller-mapping family: subsets of the first 5 basis names
+
+
+def mut_bases(name):
+    lib, basis, mat = load(name)
+    sub = basis[:MUT_SUB]
+    out = [[(g, 0.217)] for g in sub]
+    out += [[(a, 2), (b, -1)] for a, b in itertools.combinations(sub, 2)]
+    out += [[(a, 1), (b, 2), (c, -0.5)]
+            for a, b, c in itertools.combinations(sub, 3)]
+    return out
+
+
+def mut_cases(name):
+    """(items, edit, moment, mapping the dict is re-used for)"""
+    lib, basis, mat = load(name)
+    bases = mut_bases(name)
+    for k, items in enumerate(bases):
+        other = bases[(k + 1) % len(bases)]
+        for op in W.edits(items, basis):
+            for timing in W.TIMINGS:
+                yield items, op, timing, other
+
+
+def check_mut(R, name, items, op, timing, other):
+    """Estimate(d); the caller edits d; the estimate keeps the standard errors
+    of the counts it was given (absolute oracle, as everywhere else)."""
+    lib, basis, mat = load(name)
+    wit = dict(kind='mut', lib=name, items=[list(i) for i in items],
+               op=list(op), timing=timing, other=[list(i) for i in other])
+    tag = '%s/%s' % (op[0], timing)
+    R.nontrivial += 1
+    d = dict(items)
+    r = E.ev(lib.Estimate, d, 'thermochem')
+    R.evals += 1
+    if r[0] != 'ok':
+        R.outcomes['estimate-raises:' + r[1]] += 1
+        R.violation('estimate-raises:' + r[1], '[%s] %r: Estimate raised %s' % (
+            name, items, r[1]), wit)
+        return
+    e = r[1]
+    if timing == 'after-first-SE':
+        observe(R, name, e, items, 'before-edit', wit)
+    W.apply_edit(d, items, op, other)
+    e2 = None
+    if op[0] == 'replace':
+        e2 = E.ev(lib.Estimate, d, 'thermochem')
+        R.evals += 1
+    v = observe(R, name, e, items, tag, wit, prefix='se-follows-callers-mapping')
+    if all(x is not None for x in v):
+        R.outcomes['independent-of-callers-mapping'] += 1
+    if e2 is not None:
+        if e2[0] != 'ok':
+            R.outcomes['estimate-raises:' + e2[1]] += 1
+            R.violation('estimate-raises:' + e2[1], '[%s] %r (re-used mapping): '
+                        'Estimate raised %s' % (name, other, e2[1]), wit)
+        else:
+            observe(R, name, e2[1], other, 'reused-mapping', wit)
+            # and the first one once more, now that a second estimate exists
+            observe(R, name, e, items, tag + '/second-estimate', wit,
+                    prefix='se-follows-callers-mapping')
+
+
+MUT_SHARDS = {n: 2 for n in libs.UQ_LIBS}
+
+
 def shards(tier, seed):
     out = []
     for name in libs.UQ_LIBS + list(SYN):
         for i in range(6):
             out.append((name, i, 6))
+    # third wave: basis orders x stored matrices x placement of the block
+    for name in W.lib_names():
+        out.append((name, 0, 1))
+    # third wave: caller-owned mapping edited after Estimate()
+    for name in libs.UQ_LIBS + list(SYN):
+        n = MUT_SHARDS.get(name, 1)
+        for i in range(n):
+            out.append((name, i, n, 'mut'))
     return out
 
 
 def run_shard(shard, tier):
     R = Result()
+    if len(shard) == 4:
+        name, i, n, _ = shard
+        for k, (items, op, timing, other) in enumerate(mut_cases(name)):
+            if k % n == i:
+                check_mut(R, name, items, op, timing, other)
+        return R
     name, i, n = shard
+    if name.startswith('synx:') and name == W.lib_names()[0]:
+        W.selfcheck()
     for k, (tag, items) in enumerate(families(name)):
         if k % n != i:
             continue
@@ -248,6 +383,11 @@ def run_shard(shard, tier):
 def replay(w):
     R = Result()
     items = [tuple(i) for i in w['items']]
+    if w['kind'] == 'mut':
+        check_mut(R, w['lib'], items, tuple(w['op']), w['timing'],
+                  [tuple(i) for i in w['other']])
+        return dict(violates=bool(R.violations),
+                    detail='\n'.join(v['msg'] for v in R.violations[:5]) or 'holds')
     if w['kind'] == 'out':
         lib, basis, mat = load(w['lib'])
         r = E.ev(lib.Estimate, dict(items), 'thermochem')
